@@ -4,6 +4,7 @@ import (
 	"fmt"
 	"io"
 	"net/http/httptest"
+	"reflect"
 	"sort"
 	"strings"
 
@@ -566,8 +567,10 @@ func (e *regRun) execResource(f []string) {
 		e.r.Resource(base, val, mws...)
 	case "ptrint":
 		e.r.Resource(base, new(notStruct), mws...)
-	case "ptrptr": // a **T over a controller struct
-		e.r.Resource(base, &ptr, mws...)
+	case "ptrptr": // a **T over a controller struct (built with reflect: `ptr` is an interface value here)
+		pp := reflect.New(reflect.TypeOf(ptr))
+		pp.Elem().Set(reflect.ValueOf(ptr))
+		e.r.Resource(base, pp.Interface(), mws...)
 	case "same":
 		e.r.Resource(base, e.keptCtrl(rid, im[0], um[0]), mws...)
 	}
